@@ -197,7 +197,7 @@ REQUIRED_FUNCS = (["base64_encode", "base64_decode", "base64_decode_fmt", "cvt_b
 
 
 def family_cases(fam, tier):
-    S = 1 if tier == "quick" else 6
+    S = 1 if tier == "quick" else 20
     return FAM[fam](Rng(common.seed(), PROP, fam), S)
 
 
@@ -384,7 +384,7 @@ def run(tier):
     exes = common.try_builds(report, vs)
     if FALLBACK not in exes or "gcc-asu-O1" not in exes:
         raise common.Inconclusive("essential variants did not build: %s" % report.builds)
-    mult = 1 if tier == "quick" else 2
+    mult = 1 if tier == "quick" else 4
     jobs = []
     for vname, exe in exes.items():
         for fam, _, nsh in FAMILIES:
